@@ -43,12 +43,14 @@ import (
 //	stored          what the storage holds for the name: `none` | `S:<nil|[..]> E:[..]`  (spec: -)
 //	replay          the stored record replayed by the harness (snapshot, then events) -> `<state>`
 //	saves           (rec) the Save calls since the last `saves`: `{S:.. E:..} ...` | `-` (mem)   (spec: -)
+//	@b <op ...>     the same operations addressed to a second persistent actor (own persistence name, same parent,
+//	                same global MemoryStorage map): `@b spawn …`, `@b ev 5`, …
 //	burst <n> <k> <v0>  n event commands v0, v0+1, … sent without waiting (Tell), a `fail` after every k-th
 //	                (k = 0: none), then one ask                                   -> `<state> L<launches>`
 const askTimeout = 20 * time.Second
 
-type evT int      // event message
-type snapT []int  // snapshot message (a private copy of the full state)
+type evT int     // event message
+type snapT []int // snapshot message (a private copy of the full state)
 
 type cmd struct {
 	kind string
@@ -604,7 +606,7 @@ func (r *runner) Step(t []string) string {
 		if !ok1 || !ok2 || !ok3 || n < 0 || n > 5000 || k < 0 {
 			return "bad-op"
 		}
-			for i := 0; i < n; i++ {
+		for i := 0; i < n; i++ {
 			r.sys.Tell(r.child, &cmd{kind: "evq", v: v0 + i})
 			if k > 0 && (i+1)%k == 0 {
 				r.sys.Tell(r.child, &cmd{kind: "fail"})
